@@ -107,14 +107,15 @@ Definition mkNeg (t : term) : option term :=
        | None => None
        end.
 
-(* ArithLogic::mkMinus, ArithLogic.cc:564 *)
+(* ArithLogic::mkMinus, ArithLogic.cc:564:  mkPlus (a :: map mkNeg r).  The negated arguments are again in normal
+   form, and mkPlus linearises them; the model computes the same polynomial  a - (sum r)  directly. *)
 Definition mkMinus (args : list term) : option term :=
   match args with
   | [] => None
   | [a] => mkNeg a
-  | a :: r => match sequence (map mkNeg r) with
-              | Some nr => mkPlus (a :: nr)
-              | None => None
+  | a :: r => match same_num_sort args, linearize a, psum (map linearize r) with
+              | Some s, Some pa, Some pr => Some (to_term s (pnorm (padd pa (pscale (-1) pr))))
+              | _, _, _ => None
               end
   end.
 
